@@ -24,6 +24,8 @@ pub enum TOp {
     Write(Step),
     /// create `n` inputs / interned values directly on the handle (C24)
     Create(u8, u16),
+    /// convert the thread's handle into a `StorageHandle` and back (C24, Readers mode only)
+    Rehandle,
 }
 
 #[derive(Clone, Copy, Debug, PartialEq, Eq, Hash)]
@@ -90,6 +92,9 @@ pub struct IterResult {
     pub anomalies: Vec<String>,
     pub post: Vec<(Req, Outcome)>,
     pub write_violations: Vec<String>,
+    /// handles held by validated memos that no longer read the value they were interned for
+    pub held_violations: Vec<String>,
+    pub held_read_back: u64,
     pub ctx: Arc<Ctx>,
     /// E-os only: the watchdog found the phase stuck
     pub stuck: bool,
@@ -119,6 +124,8 @@ struct Shared {
 pub fn run_iteration(case: &ConcCase, watchdog_secs: u64) -> IterResult {
     let relaxed = crate::sink::RELAXED_CLOCK.load(Ordering::Relaxed);
     let mut runner = Runner::new(&case.prog, !relaxed);
+    let read_back = crate::sink::READ_BACK.load(Ordering::Relaxed);
+    runner.ctx.keep_handles.store(read_back, Ordering::Relaxed);
     let nn = case.prog.nodes.len() as u64;
     runner
         .ctx
@@ -141,6 +148,7 @@ pub fn run_iteration(case: &ConcCase, watchdog_secs: u64) -> IterResult {
         write_violations: StdMutex::new(Vec::new()),
     });
     runner.ctx.log.push(Rec::Note("parallel-begin"));
+    crate::sink::EV_DELAY.store(true, Ordering::Relaxed);
     let ctx = runner.ctx.clone();
     if let Some(at) = case.fault_at {
         ctx.fault.arm((1 << 15) - 1, at);
@@ -149,6 +157,7 @@ pub fn run_iteration(case: &ConcCase, watchdog_secs: u64) -> IterResult {
         Mode::Readers => run_readers(case, runner, &shared, watchdog_secs),
         Mode::WriterReaders => run_writer_readers(case, runner, &shared, watchdog_secs),
     };
+    crate::sink::EV_DELAY.store(false, Ordering::Relaxed);
     ctx.log.push(Rec::Note("parallel-end"));
     let fault_site = ctx.fault.fired_site.load(Ordering::Relaxed);
     let fault_fired = ctx.fault.fired_site.load(Ordering::Relaxed) != u64::MAX && case.fault_at.unwrap_or(0) != 0;
@@ -161,8 +170,30 @@ pub fn run_iteration(case: &ConcCase, watchdog_secs: u64) -> IterResult {
         cells: vec![],
         unt: vec![],
     };
+    let mut held_violations = Vec::new();
+    let mut held_read_back = 0u64;
     if let Some(mut runner) = back {
         anomalies = runner.quiescent_anomalies();
+        if read_back {
+            // every request that returned a value in the final revision validated the requested
+            // memo: the interned handles it and the memos below it hold must still be good
+            let recs = ctx.log.since(0);
+            let mut held = crate::camp_single::HeldHandles::default();
+            held.update_recs(&recs);
+            let now = runner.world.rev();
+            let mut counts = Counts::default();
+            let mut seen = std::collections::BTreeSet::new();
+            for o in shared.obs.lock().unwrap().iter() {
+                if o.rev != now || !matches!(o.out, Outcome::Val(_)) || !seen.insert(format!("{:?}", o.req)) {
+                    continue;
+                }
+                if let Some(m) = held.read_back(&runner, &case.prog, &o.req, &mut counts) {
+                    held_violations.push(format!("thread T{}: {m}", o.th));
+                    break;
+                }
+            }
+            held_read_back = counts.get("held_handles_read_back");
+        }
         if case.post_all {
             for n in 0..case.prog.nodes.len() {
                 let q = node_req(&case.prog, n);
@@ -182,6 +213,8 @@ pub fn run_iteration(case: &ConcCase, watchdog_secs: u64) -> IterResult {
         anomalies,
         post,
         write_violations: wv,
+        held_violations,
+        held_read_back,
         ctx: ctx.clone(),
         stuck,
         created: shared.created.lock().unwrap().clone(),
@@ -256,7 +289,7 @@ fn do_op(
             }
             None
         }
-        TOp::Write(_) => None,
+        TOp::Write(_) | TOp::Rehandle => None,
     }
 }
 
@@ -303,8 +336,14 @@ fn run_readers(case: &ConcCase, runner: Runner, shared: &Arc<Shared>, watchdog: 
         let tokens = tokens.clone();
         handles.push(sync::spawn(move || {
             let h = t + 1;
+            let mut db = db;
             db.ctx().log.push(Rec::CloneHandle(h as u32));
             for (i, op) in ops.iter().enumerate() {
+                if matches!(op, TOp::Rehandle) {
+                    db.ctx().log.push(Rec::Note("rehandle"));
+                    db = db.rehandle();
+                    continue;
+                }
                 do_op(&db, h, i, op, &shared, &tokens);
             }
             db.ctx().log.push(Rec::BeforeDrop(h as u32));
